@@ -939,11 +939,8 @@ impl Engine for C14 {
         }
         if let Some(lp) = &p.lazy {
             cand!(q, { q.lazy = None; });
-            for i in 0..lp.fail_at.len() {
-                cand!(q, { if let Some(l) = q.lazy.as_mut() { l.fail_at.remove(i); } });
-            }
-            if !lp.io.is_plain() {
-                cand!(q, { if let Some(l) = q.lazy.as_mut() { l.io = IoPlan::plain(); } });
+            for l in lp.smaller() {
+                cand!(q, { q.lazy = Some(l.clone()); });
             }
         }
         for io in shrink_io(&p.jar_io) {
@@ -1030,7 +1027,7 @@ impl Engine for C14 {
     }
 
     fn size(&self, p: &Plan) -> (u64, u64) {
-        ((p.classes.len() + p.others.len() + p.nests.len() + p.m.count() + p.classes.iter().map(|c| c.edits.len()).sum::<usize>()) as u64, (p.jar_io.faults.len() + p.text_faults.len() + p.lazy.as_ref().map_or(0, |l| l.fail_at.len())) as u64)
+        ((p.classes.len() + p.others.len() + p.nests.len() + p.m.count() + p.classes.iter().map(|c| c.edits.len()).sum::<usize>()) as u64, (p.jar_io.faults.len() + p.text_faults.len() + p.lazy.as_ref().map_or(0, |l| l.faults())) as u64)
     }
 
     fn rule(&self) -> String {
